@@ -146,6 +146,17 @@ class ReachTheory:
         return z3.Lambda([n], z3.And(z3.Not(self.Z[n]), z3.Or(self.R(s, n, UP), self.R(s, n, DOWN))))
 
 
+def atn_fn(ex, E):
+    """ghost function of one graph (and its latent flags): ATN(start, Z, include_latents) = active_trail_nodes(start, Z, ...)[start]"""
+    store = ex.__dict__.setdefault("_atn_fns", [])
+    for E0, f in store:
+        if E0.eq(E):
+            return f
+    f = z3.Function(f"active_trail!{len(store)}", Atom, set_sort(Atom), B, set_sort(Atom))
+    store.append((E, f))
+    return f
+
+
 class ActiveTrailNodes(Contract):
     file = "pgmpy/base/DAG.py"
     qual = "DAG.active_trail_nodes"
@@ -224,11 +235,11 @@ class ActiveTrailNodes(Contract):
         il = args["include_latents"].z
         D = lambda s_, n_: z3.And(z3.Not(self.Z(args)[n_]), z3.Or(th.R(s_, n_, UP), th.R(s_, n_, DOWN)),
                                   z3.Or(il, z3.Not(old["latents"][n_])))
-        return z3.And(
-            z3.ForAll([s], result.dom[s] == S[s]),
-            z3.ForAll([s, n], z3.Implies(S[s], result.val[s][n] == D(s, n))),
-            graph_unchanged(args["self"], old),
-        )
+        return {"keys": z3.ForAll([s], result.dom[s] == S[s]),
+                "values": z3.ForAll([s, n], z3.Implies(S[s], result.val[s][n] == D(s, n))),
+                # ghost function naming the answer for this graph (callers speak about the answers for *all* observed sets with it)
+                "def.ATN": z3.ForAll([s], z3.Implies(S[s], result.val[s] == atn_fn(ex, old["@E"])(s, self.Z(args), il))),
+                "frame": graph_unchanged(args["self"], old)}
 
     # loop 0: for start in variables
     def inv0(self, ex, st, args, old, ghost):
